@@ -96,6 +96,7 @@ type Frame struct {
 }
 
 type Exec struct {
+	staticSeen map[string]bool
 	prog      *Program
 	st        *Symtab
 	mode      Mode
@@ -136,6 +137,7 @@ func NewExec(p *Program, st *Symtab, fnName string) (*Exec, error) {
 	ex := &Exec{prog: p, st: st, fn: fn, fnName: normName(fnName), layouts: NewLayouts(), heapSorts: map[string]string{},
 		bindings: map[string]types.Type{}, obN: map[string]int{}, maxPaths: 4000, callDepthLimit: 6, opts: map[string]string{},
 		assignedHeaps: map[string]bool{}, callAssumesUsed: map[string]bool{}, caseLabels: map[string]string{}}
+	ex.layouts.RegisterLeafClasses(p.Pkg.Types)
 	if c := p.CF.Contracts[fnName]; c != nil {
 		ex.contract = c
 		ex.mode = c.Mode
@@ -302,8 +304,28 @@ func (ex *Exec) Run() (err error) {
 			v := env.eval(l.Expr)
 			s.ghost[l.Label] = v
 		}
+		for _, r := range ex.contract.Captures {
+			s.assume(env.evalAssume(r.Expr))
+		}
 		for _, r := range ex.contract.Requires {
 			s.assume(env.evalAssume(r.Expr))
+		}
+		if len(ex.contract.Captures) > 0 {
+			// the captured variables the clauses talk about are never written by the closure itself
+			// (otherwise a second call could see a different value than the creator established)
+			for _, fv := range fn.FreeVars {
+				ok, detail := true, ""
+				for _, r := range *fv.Referrers() {
+					if st, isSt := r.(*ssa.Store); isSt && st.Addr == fv {
+						ok, detail = false, "closure stores to captured variable "+fv.Name()
+					} else if _, isLoad := r.(*ssa.UnOp); !isLoad {
+						if _, isDbg := r.(*ssa.DebugRef); !isDbg && ok {
+							ok, detail = false, fmt.Sprintf("captured variable %s escapes through %T", fv.Name(), r)
+						}
+					}
+				}
+				ex.obs = append(ex.obs, staticOb(ex.layer+"/"+ex.fnName+"/captures/stable:"+fv.Name(), ex.fnName, "captured variable is read-only inside the closure", ok, detail))
+			}
 		}
 	}
 	fr.entry = s.clone()
@@ -465,7 +487,7 @@ func (ex *Exec) checkPost(fr *Frame, s *State, results []Value, retIdx int) {
 		// frame: heap arrays outside the assigns clause are unchanged
 		allowed := map[string]bool{}
 		for _, a := range ex.contract.Assigns {
-			allowed[a] = true
+			allowed[ex.canonHeap(a)] = true
 			if strings.HasPrefix(a, "*") {
 				for i, p := range fr.fn.Params {
 					if p.Name() == a[1:] {
@@ -898,7 +920,7 @@ func (ex *Exec) loopMods(fn *ssa.Function, l *Loop, spec *LoopSpec) loopMods {
 			if h == "cells" {
 				continue
 			}
-			m.heaps = append(m.heaps, h)
+			m.heaps = append(m.heaps, ex.canonHeap(h))
 		}
 	} else if hasStore {
 		for h := range ex.heapSorts {
